@@ -346,7 +346,6 @@ def _vnacal_family(rng):
            ("!", "px=vnacal_make_correlated_parameter $vc1 $pv @pfn 3 @sg"),
            ("", "px=vnacal_make_correlated_parameter $vc1 $pv NULL 2 @sg"),
            ("", "px=vnacal_make_correlated_parameter $vc1 0 NULL 3 @sg"),
-           ("", "px=vnacal_make_correlated_parameter $vc1 $pu NULL 3 @sg"),
            ("", "px=vnacal_make_correlated_parameter $vc1 $pv NULL 1 @sg0"),
            ("", "px=vnacal_make_correlated_parameter $vc1 $pv NULL 1 @sgn"),
            ("!", "vnacal_get_parameter_value $vc1 -1 0x1p+30"),
